@@ -271,5 +271,7 @@ Definition unsubscribe_norm (a : unsub_arg) : res (list filter) :=
 
 (* ------------------------------------------------------------------ effect of a rejected call
    Every Raise above is raised before _mid_generate(), before any store to _out_messages /
-   _inflight_messages and before _packet_queue(): a rejected publish()/subscribe() leaves the
-   client object unchanged (also _last_mid). The session-level statement lives in model M2. *)
+   _inflight_messages and before _packet_queue() (the size check of _send_subscribe sits in
+   _pack_remaining_length, which _send_subscribe calls before _mid_generate()): a rejected
+   publish()/subscribe() leaves the client object unchanged, _last_mid included. The session-level
+   statement lives in model M2. *)
